@@ -580,7 +580,12 @@ func (c *Ctx) appendOp(st *State, in ssa.Instruction, s SliceV, more Value, st0 
 	}
 	capT := Fresh("append.cap", c.IntSort())
 	st.assume(Cmp(">=", capT, newLen, true))
-	return SliceV{Elem: elem, Heap: true, Ref: ref, Off: c.idx(0), Len: newLen, Cap: capT}
+	// appending nothing returns the slice itself (a nil slice stays nil)
+	if isNum(hm.Len) && hm.Len.Val.Sign() != 0 {
+		return SliceV{Elem: elem, Heap: true, Ref: ref, Off: c.idx(0), Len: newLen, Cap: capT}
+	}
+	none := Eq(hm.Len, c.idx(0))
+	return SliceV{Elem: elem, Heap: true, Ref: Ite(none, hs.Ref, ref), Off: Ite(none, hs.Off, c.idx(0)), Len: newLen, Cap: Ite(none, hs.Cap, capT)}
 }
 
 func (c *Ctx) copyOp(st *State, in ssa.Instruction, dst SliceV, srcv Value) Value {
